@@ -73,6 +73,11 @@ METHODS = [
       ["crypt-gost-yescrypt.c", "crypt-yescrypt.c", "alg-yescrypt-common.c"],
       ["M_YESCRYPT_KDF", "M_SHA256", "M_HMAC_SHA256", "M_GOST"], 43, max_s=14, max_p=4),
 ]
+# scrypt: every character after "$7$" is a base-64 digit or '$' (doc/crypt.5; verify_salt)
+BY = {m.name: m for m in METHODS}
+BY["scrypt"].must_reject = ("{ _Bool term = 0; for (size_t j = 0; j < MAX_S; j++) if (j < in_slen) { char c = setting[PLEN + j]; "
+                            "if (j < 11) { if (!alpha_ok((unsigned char)c)) bad = 1; } "       # N, r, p digits
+                            "else if (!term) { if (c == '$') term = 1; else if (!alpha_ok((unsigned char)c)) bad = 1; } } }")  # salt up to its '$'
 BF_UNIT = ("crypt-bcrypt.c", ["__CPROVER_file_local_crypt_bcrypt_c_BF_crypt"], {"export_static": True})
 BF_PRE = ("__CPROVER_assume(in_slen >= 25);")     # prefix + cost + 22 salt characters at least
 for _n, _fn, _p in (("bcrypt", "crypt_bcrypt_rn", "$2b$"), ("bcrypt_a", "crypt_bcrypt_a_rn", "$2a$"),
@@ -97,6 +102,9 @@ def method_query(m, qname, harness="crypt_method.c", max_s=None, max_p=None, cap
         defs.append("VF_DES_CH")
     if m.shape:
         defs.append("SHAPE_CHECK=" + m.shape)
+    defs.append("OUT_BOUND=%d" % (len(m.prefix) + max_s + m.hash_len + 3))
+    if getattr(m, "must_reject", None):
+        defs.append("MUST_REJECT=" + m.must_reject)
     if at_base:
         defs.append("SETTING_AT_BASE")
     if not m.can_fail:
